@@ -409,6 +409,47 @@ Proof.
     + apply Qred_correct.
 Qed.
 
+(** The denominator is the number of connected triples: sum_v d_v (d_v - 1) = 2 #{b - v - c, b < c}. *)
+From Coq Require Import Psatz.
+Lemma pairs_sorted (p : nat -> bool) (l : list nat) :
+  StronglySorted lt l ->
+  2 * sumn (map (fun b => sumn (map (fun c => b2n ((b <? c) && p b && p c)) l)) l) =
+  length (filter p l) * (length (filter p l) - 1).
+Proof.
+  induction 1 as [|a t Ht IH Ha]; [reflexivity|].
+  rewrite Forall_forall in Ha.
+  set (f := fun b c => b2n ((b <? c) && p b && p c)).
+  change (2 * sumn (map (fun b => sumn (map (f b) (a :: t))) (a :: t)) =
+          length (filter p (a :: t)) * (length (filter p (a :: t)) - 1)).
+  change (2 * sumn (map (fun b => sumn (map (f b) t)) t) =
+          length (filter p t) * (length (filter p t) - 1)) in IH.
+  rewrite map_cons, sumn_cons. rewrite map_cons, sumn_cons.
+  assert (Haa : f a a = 0) by (unfold f; rewrite Nat.ltb_irrefl; reflexivity).
+  rewrite Haa.
+  rewrite (sumn_map_ext_in (fun b => sumn (map (f b) (a :: t))) (fun b => sumn (map (f b) t)) t).
+  2:{ intros b Hb. rewrite map_cons, sumn_cons. specialize (Ha b Hb). unfold f at 1.
+      destruct (Nat.ltb_spec b a); [lia|]. reflexivity. }
+  rewrite (sumn_map_ext_in (f a) (fun c => b2n (p a) * b2n (p c)) t).
+  2:{ intros c Hc. specialize (Ha c Hc). unfold f. destruct (Nat.ltb_spec a c); [|lia]. rewrite b2n_and. reflexivity. }
+  rewrite <- b2n_mul_sum, <- length_filter_sum.
+  cbn [filter]. destruct (p a); cbn [b2n length]; nia.
+Qed.
+
+Lemma sumn_map_mul2 {A} (f : A -> nat) l : 2 * sumn (map f l) = sumn (map (fun x => 2 * f x) l).
+Proof. induction l as [|a t IH]; [reflexivity|]. cbn [map]. rewrite !sumn_cons, <- IH. lia. Qed.
+
+Theorem connected_triples_spec adj n : 2 * connected_triples adj n = triples_spec2 adj n.
+Proof.
+  unfold connected_triples, all_triples, triples_spec2.
+  rewrite length_filter_flat_map, sumn_map_mul2. apply sumn_map_ext_in. intros v _.
+  rewrite length_filter_flat_map.
+  rewrite (sumn_map_ext_in _ (fun b => sumn (map (fun c => b2n ((b <? c) && adj v b && adj v c)) (seq 0 n)))).
+  2:{ intros b _. rewrite filter_map_comm, map_length, length_filter_sum. reflexivity. }
+  rewrite pairs_sorted by apply sorted_seq.
+  cbv zeta. unfold degree_spec.
+  destruct (length (filter (adj v) (seq 0 n))) as [|[|d]]; reflexivity.
+Qed.
+
 (** * 6. Cliques, level L1: the recursion counts the k-subsets that are cliques *)
 
 Lemma sublists_k_0 l : sublists_k 0 l = [[]].
